@@ -155,6 +155,10 @@ type c13Req struct {
 	Base []string `json:"base,omitempty"` // match: schema idents of the base path from the root
 	Cand []string `json:"cand,omitempty"` // match: schema idents of the candidate path from the root
 	Val  int      `json:"val,omitempty"`  // setvalue: index in c13SetPool
+	// path applied at a selection below the root (At != ""): schema idents of At from the root, and whether the
+	// selection is a list entry (the model rebuilds the chain of parent selections from these)
+	AtNames []string `json:"at_names,omitempty"`
+	AtRow   bool     `json:"at_row,omitempty"`
 }
 
 // c13MustErr: the mismatch classes the property names (an object where a list is declared, a scalar where a
@@ -182,7 +186,8 @@ type c13Resp struct {
 	Msg       string `json:"msg,omitempty"`
 	Preserved bool   `json:"preserved"`
 	Changed   bool   `json:"changed"`         // store differs from the original (informational)
-	Match     int    `json:"match,omitempty"` // match kind: 1 false, 2 true
+	Match     int    `json:"match,omitempty"` // match kind: 1 false, 2 true; path at a sub-selection with a query: 1 differs from / 2 same as the Find without the query
+	NoQuery   string `json:"noquery,omitempty"` // path at a sub-selection with a query: what the Find without the query did
 }
 
 type c13PoolVal struct {
@@ -303,6 +308,9 @@ func c13Run(w *c13World, rq *c13Req, b *node.Browser, resp *c13Resp) error {
 		}
 		return root.UpsertFrom(n)
 	case "path":
+		if rq.At != "" {
+			return c13RunRel(rq, at, read, resp)
+		}
 		s, err := root.Find(rq.Text)
 		if err != nil {
 			return err
@@ -373,6 +381,57 @@ func c13Run(w *c13World, rq *c13Req, b *node.Browser, resp *c13Resp) error {
 		return nil
 	}
 	return fmt.Errorf("harness: unknown request kind %q", rq.Kind)
+}
+
+// c13FindObs: what Find did, as far as the property looks: class and the path of the selection found
+func c13FindObs(s *node.Selection, err error) string {
+	switch {
+	case err != nil:
+		return "Err"
+	case s == nil:
+		return "Ok nil"
+	}
+	return "Ok " + s.Path.String()
+}
+
+// c13RunRel: Find(text) on the selection at rq.At; text may start with "../" steps and may carry a query. When it
+// carries one, the same Find without the query part is made first (on a selection of its own, inside a recover of
+// its own) and resp.Match says whether both ended alike.
+func c13RunRel(rq *c13Req, at func() (*node.Selection, error), read func(*node.Selection) error, resp *c13Resp) error {
+	q := strings.IndexByte(rq.Text, '?')
+	if q >= 0 {
+		func() {
+			defer func() {
+				if r := recover(); r != nil {
+					resp.NoQuery = fmt.Sprintf("Panic %v", r)
+				}
+			}()
+			ref, err := at()
+			if err != nil {
+				resp.NoQuery = "harness: " + err.Error()
+				return
+			}
+			resp.NoQuery = c13FindObs(ref.Find(rq.Text[:q]))
+		}()
+	}
+	start, err := at()
+	if err != nil {
+		return err
+	}
+	s, err := start.Find(rq.Text)
+	if q >= 0 {
+		resp.Match = 1
+		if c13FindObs(s, err) == resp.NoQuery {
+			resp.Match = 2
+		}
+	}
+	if err != nil {
+		return err
+	}
+	if s != nil {
+		_ = s.Path.String()
+	}
+	return read(s)
 }
 
 // subset: every leaf, container and row of a is in b with the same value (rows by key)
